@@ -12,7 +12,8 @@ open Rpft Rpft.Compile Rpft.RefFlow
 /-- the facts about a row of the fragment that the parser looks at -/
 structure RowFacts (c : CRow) : Prop where
   nouid : c.row.nodeUuid = []
-  noname : c.row.nodeName = []
+  /-- a node name: on an action row that has an action only -/
+  noname : c.row.nodeName = [] ∨ (kindOf c.row.type = .action ∧ c.row.action.isSome = true)
   t8 : c.row.type ≠ "no_op".toList
   t9 : c.row.type ≠ "go_to".toList
   t10 : c.row.type ≠ "hard_exit".toList
@@ -42,11 +43,13 @@ theorem rowFacts (c : CRow) (hf : nodeRowOk c = true) : RowFacts c := by
   · simp only [plainActionRow, Bool.and_eq_true, Bool.not_eq_true', List.isEmpty_iff, decide_eq_true_eq] at hf
     obtain ⟨⟨⟨hsp, hu⟩, hnm⟩, _⟩ := hf
     obtain ⟨_, _, _, _, _, _, _, h8, h9, h10, h11, h12⟩ := not_special hsp
-    exact ⟨hu, hnm, h8, h9, h10, h11, h12, .inl (kindOf_action hsp)⟩
+    refine ⟨hu, ?_, h8, h9, h10, h11, h12, .inl (kindOf_action hsp)⟩
+    simp only [Bool.or_eq_true, List.isEmpty_iff] at hnm
+    exact hnm.imp id (fun h => ⟨kindOf_action hsp, h⟩)
   · simp only [switchRow, Bool.and_eq_true, List.isEmpty_iff] at hf
     obtain ⟨⟨⟨hsw, hu⟩, hnm⟩, _⟩ := hf
     have ht := switch_type hsw
-    refine ⟨hu, hnm, ?_, ?_, ?_, ?_, ?_, ?_⟩
+    refine ⟨hu, .inl hnm, ?_, ?_, ?_, ?_, ?_, ?_⟩
     · rcases ht with h | h | h <;> rw [h] <;> decide
     · rcases ht with h | h | h <;> rw [h] <;> decide
     · rcases ht with h | h | h <;> rw [h] <;> decide
@@ -59,7 +62,7 @@ theorem rowFacts (c : CRow) (hf : nodeRowOk c = true) : RowFacts c := by
   · simp only [fixedRow, Bool.and_eq_true, List.isEmpty_iff] at hf
     obtain ⟨⟨⟨hsw, hu⟩, hnm⟩, _⟩ := hf
     have ht := fixed_type hsw
-    refine ⟨hu, hnm, ?_, ?_, ?_, ?_, ?_, ?_⟩
+    refine ⟨hu, .inl hnm, ?_, ?_, ?_, ?_, ?_, ?_⟩
     · rcases ht with h | h | h <;> rw [h] <;> decide
     · rcases ht with h | h | h <;> rw [h] <;> decide
     · rcases ht with h | h | h <;> rw [h] <;> decide
@@ -71,7 +74,7 @@ theorem rowFacts (c : CRow) (hf : nodeRowOk c = true) : RowFacts c := by
       · exact .inr (.inr (.inr (.inr (.inr (.inr (.inl h))))))
   · simp only [randomRow, Bool.and_eq_true, List.isEmpty_iff, decide_eq_true_eq] at hf
     obtain ⟨⟨⟨ht, hu⟩, hnm⟩, _⟩ := hf
-    refine ⟨hu, hnm, ?_, ?_, ?_, ?_, ?_, ?_⟩
+    refine ⟨hu, .inl hnm, ?_, ?_, ?_, ?_, ?_, ?_⟩
     · rw [ht]; decide
     · rw [ht]; decide
     · rw [ht]; decide
@@ -79,9 +82,10 @@ theorem rowFacts (c : CRow) (hf : nodeRowOk c = true) : RowFacts c := by
     · rw [ht]; decide
     · rw [ht]; exact .inr (.inr (.inr (.inr (.inr (.inr (.inr kindOf_random))))))
 
-/-- a row of the fragment goes straight to `newRow` -/
+/-- a row of the fragment whose node name (if any) is not in use goes straight to `newRow` -/
 theorem wp_parseRow_new (c : CRow) (hf : RowFacts c) (s : St) (Q : PUnit → St → Prop)
-    (h : c.row.actionOk = true → wp (newRow { c.row with edges := dropTrivial c.row.edges } []) s Q) :
+    (hex : c.row.nodeName = [] ∨ s.names.find? (·.1 = c.row.nodeName) = none)
+    (h : c.row.actionOk = true → wp (newRow { c.row with edges := dropTrivial c.row.edges } c.row.nodeName) s Q) :
     wp (parseRow c.row) s Q := by
   unfold parseRow
   simp only
@@ -89,10 +93,15 @@ theorem wp_parseRow_new (c : CRow) (hf : RowFacts c) (s : St) (Q : PUnit → St 
   unfold actionRow
   wp_simp
   refine ⟨fun _ => trivial, fun hok => ?_⟩
-  have e1 : (if List.isEmpty c.row.nodeUuid = true then c.row.nodeName else c.row.nodeUuid) = [] := by
-    simp [hf.nouid, hf.noname]
+  have e1 : (if List.isEmpty c.row.nodeUuid = true then c.row.nodeName else c.row.nodeUuid) = c.row.nodeName := by
+    simp [hf.nouid]
   rw [e1]
-  simp only [List.isEmpty_nil, if_true]
+  have e2 : (if c.row.nodeName.isEmpty = true then none
+      else Option.map (fun x => x.2) (List.find? (fun x => decide (x.1 = c.row.nodeName)) s.names)) = none := by
+    rcases hex with hex | hex
+    · simp [hex]
+    · rw [hex]; simp
+  rw [e2]
   exact h (by simpa using hok)
 
 /-- pass 1 on a node-producing row -/
@@ -120,7 +129,7 @@ out-edge yet -/
 theorem rowNode_sim (c : CRow) (hf : nodeRowOk c = true) (edges : List Compile.Edge) (act : Option (Uid × Str))
     (hact : act.map (·.2) = c.row.action) (s : St) (hna : s.noArgs = RefFlow.noArgsTests) :
     wp (rowNode { c.row with edges := edges } act) s (fun n s' =>
-      (∃ k, Bump s s' k) ∧ (∀ r, n.router = some (RouterM.rnd r) → r.cats = []) ∧ ∀ M ns, NodeSim M ns n c []) := by
+      (∃ k, Bump s s' k) ∧ (∀ r, n.router = some (RouterM.rnd r) → r.cats = []) ∧ ∀ M ns, NodeSim M ns n c [] []) := by
   simp only [nodeRowOk, Bool.or_eq_true] at hf
   rcases hf with ((hf | hf) | hf) | hf
   · simp only [plainActionRow, Bool.and_eq_true, Bool.not_eq_true', List.isEmpty_iff, decide_eq_true_eq] at hf
@@ -129,7 +138,7 @@ theorem rowNode_sim (c : CRow) (hf : nodeRowOk c = true) (edges : List Compile.E
     intro n s' ⟨hb, hnk, hnr, hna, hnd⟩
     refine ⟨hb, (fun r hr => by rw [hnr] at hr; cases hr), fun M ns => .plain (kindOf_action hsp) ⟨hnk, hnr, ?_, ?_, ?_⟩⟩
     · have e2 : act.toList.map (·.2) = (act.map (·.2)).toList := by cases act <;> rfl
-      rw [hna, e2, hact]
+      rw [hna, e2, hact, List.append_nil]
     · rw [hnd]; rfl
     · intro e he; cases he
   · simp only [switchRow, Bool.and_eq_true, List.isEmpty_iff] at hf
@@ -211,9 +220,9 @@ theorem forall2_imp_mem {α β} {R S : α → β → Prop} {l1 : List α} {l2 : 
   | cons hab _ ih =>
     exact .cons (himp _ _ (by simp) hab) (ih (fun a b hb => himp a b (by simp [hb])))
 
-theorem NodeSim.congrM {M M' : Maps} {ns : Array NodeM} {n : NodeM} {c : CRow} {es : List OutEdge}
-    (h : ∀ e ∈ es, ∀ k, e.tgt = Target.row k → M'.nOf k = M.nOf k) (hs : NodeSim M ns n c es) :
-    NodeSim M' ns n c es := by
+theorem NodeSim.congrM {M M' : Maps} {ns : Array NodeM} {n : NodeM} {c : CRow} {post : List Str} {es : List OutEdge}
+    (h : ∀ e ∈ es, ∀ k, e.tgt = Target.row k → M'.nOf k = M.nOf k) (hs : NodeSim M ns n c post es) :
+    NodeSim M' ns n c post es := by
   have hlast : ∀ (l : List OutEdge), (∀ e ∈ l, e ∈ es) → ∀ k, (l.getLast?).map (·.tgt) = some (Target.row k) →
       M'.nOf k = M.nOf k := by
     intro l hl k hk
@@ -256,10 +265,23 @@ theorem NodeSim.congrM {M M' : Maps} {ns : Array NodeM} {n : NodeM} {c : CRow} {
     simp only [Option.some.injEq] at hk'
     obtain ⟨e, he, het⟩ := buckets_tgt es b hb
     exact h e he k (by rw [het]; exact hk')
+  | nop r hk hp =>
+    refine .nop r hk ⟨hp.kind, hp.acts, hp.router, hp.operand, hp.rname, hp.wait, hp.noResp, hp.cases, hp.casecat,
+      ?_, ?_, hp.names⟩
+    · refine forall2_imp_mem hp.catd ?_
+      intro cat e he hd
+      refine hd.congrM ?_
+      intro k hk
+      simp only [Option.some.injEq] at hk
+      have : e ∈ es := by
+        unfold testsOf at he
+        exact hfil _ _ (hfil _ _ (fun e he => he)) e he
+      exact h e this k hk
+    · exact hp.dflt.congrM (hlast _ (hfil _ _ (fun e he => he)))
 
-theorem RowSim.congrM {M M' : Maps} {ns : Array NodeM} {n : NodeM} {c : CRow} {es : List OutEdge} {ro : Option Nat}
-    (h : ∀ e ∈ es, ∀ k, e.tgt = Target.row k → M'.nOf k = M.nOf k) (hs : RowSim M ns n c es ro) :
-    RowSim M' ns n c es ro := by
+theorem RowSim.congrM {M M' : Maps} {ns : Array NodeM} {n : NodeM} {c : CRow} {post : List Str} {es : List OutEdge} {ro : Option Nat}
+    (h : ∀ e ∈ es, ∀ k, e.tgt = Target.row k → M'.nOf k = M.nOf k) (hs : RowSim M ns n c post es ro) :
+    RowSim M' ns n c post es ro := by
   cases hs with
   | one hn => exact .one (hn.congrM h)
   | impl i' n' r hk hp =>
@@ -285,8 +307,10 @@ theorem RowSim.congrM {M M' : Maps} {ns : Array NodeM} {n : NodeM} {c : CRow} {e
       exact h e this k hk
     · exact hp.dflt.congrM (hlast _ (fun e he => (List.mem_filter.mp he).1))
 
-theorem isNodeRow_of_ok (c : CRow) (hf : nodeRowOk c = true) : isNodeRow c = true := by
+theorem isNodeRow_of_ok (c : CRow) (hf : nodeRowOk c = true) (hm : (c.merged && isNamedAct c) = false) :
+    isNodeRow c = true := by
   unfold isNodeRow
+  rw [hm]
   rcases (rowFacts c hf).kind with h | h | h | h | h | h | h | h <;> rw [h] <;> rfl
 
 theorem outOf_nil_of_src (st : P1) (k : Nat) (h : ∀ e ∈ st.out, e.src < k) : outOf st k = [] := by
@@ -298,17 +322,33 @@ theorem outOf_nil_of_src (st : P1) (k : Nat) (h : ∀ e ∈ st.out, e.src < k) :
 
 /-- a row that produces no node has been dealt with -/
 theorem Rel.skip {rows : List CRow} {M : Maps} {k : Nat} {s : St} {st : P1} {c : CRow}
-    (h : Rel rows M false k s st) (hc : rows[k]? = some c) (hn : isNodeRow c = false) :
+    (h : Rel rows M false k s st) (hc : rows[k]? = some c) (hn : isNodeRow c = false)
+    (hm : (c.merged && isNamedAct c) = false) :
     Rel rows M false (k + 1) s st := by
   have hg : gOf rows (k + 1) = gOf rows k := by rw [gOf_succ rows k c hc, hn]; simp
-  refine ⟨by rw [hg]; exact h.gsize, by rw [hg]; exact h.root, ?_, h.stack, h.ids, ?_, ?_, ?_, ?_, h.args, ?_, ?_, h.rne,
-    fun j hj => h.rnone j (by omega), h.rfresh⟩
-  · intro j c' hj hc' hn'
-    have : j < k := by
-      rcases Nat.lt_succ_iff_lt_or_eq.mp hj with h1 | h1
-      · exact h1
-      · subst h1; rw [hc] at hc'; injection hc' with hc'; subst hc'; rw [hn] at hn'; cases hn'
-    exact h.grp j c' this hc' hn'
+  have hlt : ∀ j c', j < k + 1 → rows[j]? = some c' → isNodeRow c' = true → j < k := by
+    intro j c' hj hc' hn'
+    rcases Nat.lt_succ_iff_lt_or_eq.mp hj with h1 | h1
+    · exact h1
+    · subst h1; rw [hc] at hc'; injection hc' with hc'; subst hc'; rw [hn] at hn'; cases hn'
+  have conv : ∀ j c', Valid rows M false (k + 1) j c' → Valid rows M false k j c' := by
+    intro j c' hv
+    obtain ⟨h1, h2, h3⟩ := hv
+    rcases h1 with h1 | h1
+    · exact ⟨.inl (hlt j c' h1 h2 h3.1), h2, h3⟩
+    · exact absurd h1.1 (by simp)
+  refine ⟨by rw [hg]; exact h.gsize, by rw [hg]; exact h.root, ?_, ?_, h.elno, ?_, h.tgtfr, h.stack, h.ids, ?_, ?_, ?_, ?_,
+    h.args, ?_, ?_, h.rne, fun j hj => h.rnone j (by omega), h.rnoop, h.rfresh, ?_⟩
+  rotate_right
+  · refine ⟨fun p hp hne => ?_, fun i c' hi hc' hn' hnn' hne => ?_⟩
+    · obtain ⟨i, c', hi, r⟩ := h.names.1 p hp hne
+      exact ⟨i, c', by omega, r⟩
+    · exact h.names.2 i c' (hlt i c' hi hc' hn') hc' hn' hnn' hne
+  · intro j c' hj hc' hn' hnn'
+    exact h.grp j c' (hlt j c' hj hc' hn') hc' hn' hnn'
+  · intro j c' hj hc' hnn'
+    exact h.grpN j c' (hlt j c' hj hc' (isNodeRow_of_noop hnn')) hc' hnn'
+  · intro j hj; have := h.frel j hj; exact ⟨this.1, by omega, this.2.2⟩
   · intro p hp; have := h.idok p hp; exact ⟨by omega, this.2⟩
   · have := h.prev
     cases hpv : st.prev with
@@ -323,406 +363,246 @@ theorem Rel.skip {rows : List CRow} {M : Maps} {k : Nat} {s : St} {st : P1} {c :
     · exact .inl (by omega)
     · exact absurd h1.1 (by simp)
   · intro j c' hv
-    have : Valid rows false k j c' := by
-      obtain ⟨h1, h2, h3⟩ := hv
-      rcases h1 with h1 | h1
-      · rcases Nat.lt_succ_iff_lt_or_eq.mp h1 with h4 | h4
-        · exact ⟨.inl h4, h2, h3⟩
-        · subst h4; rw [hc] at h2; injection h2 with h2; subst h2; rw [hn] at h3; cases h3
-      · exact absurd h1.1 (by simp)
-    exact h.node j c' this
+    rw [postUpTo_succ rows k j c hc hm]
+    exact h.node j c' (conv _ _ hv)
   · intro j c1 j' c2 hv1 hv2
-    have conv : ∀ j c', Valid rows false (k + 1) j c' → Valid rows false k j c' := by
-      intro j c' hv
-      obtain ⟨h1, h2, h3⟩ := hv
-      rcases h1 with h1 | h1
-      · rcases Nat.lt_succ_iff_lt_or_eq.mp h1 with h4 | h4
-        · exact ⟨.inl h4, h2, h3⟩
-        · subst h4; rw [hc] at h2; injection h2 with h2; subst h2; rw [hn] at h3; cases h3
-      · exact absurd h1.1 (by simp)
     exact h.disj j c1 j' c2 (conv _ _ hv1) (conv _ _ hv2)
 
-/-- a node-producing row -/
-theorem node_row_sim (rows : List CRow) (outF : List OutEdge) (g : Good rows outF) (M : Maps) (k : Nat) (c : CRow)
-    (hc : rows[k]? = some c) (hf : nodeRowOk c = true) (s : St) (st st' : P1) (h : Rel rows M false k s st)
-    (hst : pass1Row st k (toRRow c) = .ok st') (hpre : st'.out.reverse <+: outF) :
-    wp (step (toEvent c)) s (fun _ s' => ∃ M', Rel rows M' false (k + 1) s' st') := by
-  have hfacts := rowFacts c hf
-  have hnode := isNodeRow_of_ok c hf
+/-- the node name of a row that is not merged is not in use -/
+theorem names_none_of_unmerged {rows : List CRow} {M : Maps} {k : Nat} {names : List (Str × Nat)} {c : CRow}
+    (ha : Annot rows) (h : NamesInv rows M k names) (hc : rows[k]? = some c)
+    (hm : (c.merged && isNamedAct c) = false) (hna : c.row.nodeName ≠ [] → isNamedAct c = true) :
+    c.row.nodeName = [] ∨ names.find? (·.1 = c.row.nodeName) = none := by
+  by_cases hnm : c.row.nodeName = []
+  · exact .inl hnm
+  · right
+    have hnamed := hna hnm
+    rw [hnamed, Bool.and_true] at hm
+    have hma := ha k c hc
+    rw [hm] at hma
+    unfold mergeAt at hma
+    rw [hc] at hma
+    simp only [hnamed, Bool.true_and] at hma
+    cases hfd : names.find? (·.1 = c.row.nodeName) with
+    | none => rfl
+    | some p =>
+      exfalso
+      have hp1 : p.1 = c.row.nodeName := by simpa using List.find?_some hfd
+      obtain ⟨i, ci, hi, hci, _, _, hnai, hnmi, _⟩ := h.1 p (List.mem_of_find?_eq_some hfd) (by rw [hp1]; exact hnm)
+      have : (rows.take k).any (fun c' => isNamedAct c' && decide (c'.row.nodeName = c.row.nodeName)) = true := by
+        rw [List.any_eq_true]
+        refine ⟨ci, ?_, by rw [hnai, hnmi, hp1]; simp⟩
+        rw [List.mem_iff_getElem?]
+        exact ⟨i, by rw [List.getElem?_take, if_pos hi]; exact hci⟩
+      rw [this] at hma; cases hma
+
+theorem unmerged_of_node {c : CRow} (h : isNodeRow c = true) : (c.merged && isNamedAct c) = false := by
+  unfold isNodeRow at h
+  simp only [Bool.and_eq_true, Bool.not_eq_true'] at h
+  exact h.2
+
+/-- the node names after a row that created a node -/
+theorem NamesInv.push {rows : List CRow} {M : Maps} {k : Nat} {names : List (Str × Nat)} {c : CRow}
+    (h : NamesInv rows M k names) (hc : rows[k]? = some c) (hnode : isNodeRow c = true) (hnn : isNoop c = false)
+    (hna : c.row.nodeName ≠ [] → isNamedAct c = true) :
+    NamesInv rows M (k + 1) ((c.row.nodeName, M.nOf k) :: names) := by
+  refine ⟨fun p hp hne => ?_, fun i c' hi hc' hn' hnn' hne => ?_⟩
+  · simp only [List.mem_cons] at hp
+    rcases hp with rfl | hp
+    · exact ⟨k, c, by omega, hc, hnode, hnn, hna hne, rfl, rfl⟩
+    · obtain ⟨i, c', hi, r⟩ := h.1 p hp hne
+      exact ⟨i, c', by omega, r⟩
+  · rcases Nat.lt_succ_iff_lt_or_eq.mp hi with h1 | h1
+    · exact List.mem_cons_of_mem _ (h.2 i c' h1 hc' hn' hnn' hne)
+    · subst h1; rw [hc] at hc'; injection hc' with hc'; subst hc'; simp
+
+/-- … after a `no_op` row -/
+theorem NamesInv.step_noop {rows : List CRow} {M : Maps} {k : Nat} {names : List (Str × Nat)} {c : CRow}
+    (h : NamesInv rows M k names) (hc : rows[k]? = some c) (hnn : isNoop c = true) :
+    NamesInv rows M (k + 1) names := by
+  refine ⟨fun p hp hne => ?_, fun i c' hi hc' hn' hnn' hne => ?_⟩
+  · obtain ⟨i, c', hi, r⟩ := h.1 p hp hne
+    exact ⟨i, c', by omega, r⟩
+  · rcases Nat.lt_succ_iff_lt_or_eq.mp hi with h1 | h1
+    · exact h.2 i c' h1 hc' hn' hnn' hne
+    · subst h1; rw [hc] at hc'; injection hc' with hc'; subst hc'; rw [hnn] at hnn'; cases hnn'
+
+/-! ### the two bookkeeping steps of a row that produces a group -/
+
+/-- the node of row `k` has been created and pushed on the arena; the ghost map learns where it lives -/
+theorem Rel.push_node {rows : List CRow} {M : Maps} {k : Nat} {s : St} {st : P1} {c : CRow}
+    (h : Rel rows M false k s st) (hc : rows[k]? = some c) (hnode : isNodeRow c = true) (hnn : isNoop c = false)
+    (n : NodeM) (hnrnd : ∀ r, n.router = some (RouterM.rnd r) → r.cats = [])
+    (hnsim : ∀ M ns, NodeSim M ns n c [] []) (nx : Nat) (hnx : s.next ≤ nx) :
+    Rel rows { M with nOf := fun x => if x = k then s.nodes.size else M.nOf x } true k
+      { s with nodes := s.nodes.push n, next := nx } st := by
+  obtain ⟨M', hM'⟩ : ∃ M' : Maps, M' = { M with nOf := fun x => if x = k then s.nodes.size else M.nOf x } := ⟨_, rfl⟩
+  rw [← hM']
+  have hMk : M'.nOf k = s.nodes.size := by rw [hM']; simp
+  have hMo : ∀ x, x ≠ k → M'.nOf x = M.nOf x := by intro x hx; rw [hM']; simp [hx]
+  have hMr : M'.rOf = M.rOf := by rw [hM']
+  have hMel : M'.el = M.el := by rw [hM']
+  have hMfr : M'.fr = M.fr := by rw [hM']
+  have hsrck : ∀ e ∈ st.out, e.src < k := fun e he => (h.srcok e he).1
+  have htgk : ∀ e ∈ st.out, ∀ t, e.tgt = Target.row t → M'.nOf t = M.nOf t := by
+    intro e he t ht
+    rcases h.tgtok e he t ht with h1 | h1
+    · exact hMo t (by omega)
+    · exact absurd h1.1 (by simp)
+  have hmemout : ∀ j, ∀ e ∈ outOf st j, e ∈ st.out := by
+    intro j e he
+    have := (List.mem_filter.mp he).1
+    simpa using this
+  have hvalid : ∀ j c', Valid rows M' true k j c' → j ≠ k → Valid rows M false k j c' := by
+    intro j c' hv hjk
+    rcases hv.1 with h1 | h1
+    · exact ⟨.inl h1, hv.2.1, hv.2.2.1, by rw [← hMel]; exact hv.2.2.2⟩
+    · exact absurd h1.2 hjk
+  have hrk : M'.rOf k = none := by rw [hMr]; exact h.rnone k (Nat.le_refl _)
+  have hidx : ∀ j0, idxs M' j0 = if j0 = k then [s.nodes.size] else idxs M j0 := by
+    intro j0
+    by_cases hjj : j0 = k
+    · subst hjj; simp [idxs, hMk, hrk]
+    · simp [idxs, hMo j0 hjj, hMr, hjj]
+  refine ⟨h.gsize, h.root, ?_, ?_, by rw [hMel]; exact h.elno, by rw [hMel, hMfr]; exact h.frel,
+    by rw [hMfr]; exact h.tgtfr, h.stack, h.ids, h.idok, h.prev, h.srcok, ?_, h.args, ?_, ?_, ?_, ?_,
+    by rw [hMr]; exact h.rnoop, ?_, h.names.congr (fun i _ hi _ _ _ => hMo i (by omega))⟩
+  · intro j c' hj hc' hn' hnn'
+    rw [hMo j (by omega), hMr]; exact h.grp j c' hj hc' hn' hnn'
+  · intro j c' hj hc' hnn'
+    rw [hMo j (by omega), hMel]; exact h.grpN j c' hj hc' hnn'
+  · intro e he t ht
+    rcases h.tgtok e he t ht with h1 | h1
+    · exact .inl h1
+    · exact absurd h1.1 (by simp)
+  · intro j c' hv
+    by_cases hjk : j = k
+    · subst hjk
+      have : c' = c := by have := hv.2.1; rw [hc] at this; injection this with this; exact this.symm
+      subst this
+      refine ⟨n, by rw [hMk]; simp, ?_⟩
+      rw [outOf_nil_of_src st j hsrck, hrk, postUpTo_le rows (Nat.le_succ j)]
+      exact .one (hnsim _ _)
+    · obtain ⟨n', hn', hp'⟩ := h.node j c' (hvalid j c' hv hjk)
+      refine ⟨n', by rw [hMo j hjk]; exact getElem?_push_of_some n hn', ?_⟩
+      rw [hMr]
+      refine (hp'.transfer (NExt.push _ _) ?_).congrM (fun e he t ht => htgk e (hmemout j e he) t ht)
+      intro i hi
+      have := h.idx_lt j c' (hvalid j c' hv hjk) i (by simp only [idxs, List.mem_cons]; exact .inr hi)
+      simp [Array.getElem?_push, Nat.ne_of_lt this]
+  · intro j1 c1 j2 c2 hv1 hv2 x hx1 hx2
+    rw [hidx] at hx1 hx2
+    by_cases h1 : j1 = k
+    · by_cases h2 : j2 = k
+      · rw [h1, h2]
+      · exfalso
+        rw [if_pos h1] at hx1; rw [if_neg h2] at hx2
+        have := h.idx_lt j2 c2 (hvalid j2 c2 hv2 h2) x hx2
+        simp only [List.mem_singleton] at hx1
+        omega
+    · by_cases h2 : j2 = k
+      · exfalso
+        rw [if_neg h1] at hx1; rw [if_pos h2] at hx2
+        have := h.idx_lt j1 c1 (hvalid j1 c1 hv1 h1) x hx1
+        simp only [List.mem_singleton] at hx2
+        omega
+      · rw [if_neg h1] at hx1; rw [if_neg h2] at hx2
+        exact h.disj j1 c1 j2 c2 (hvalid j1 c1 hv1 h1) (hvalid j2 c2 hv2 h2) x hx1 hx2
+  · intro j1 i' hi'
+    rw [hMr] at hi'
+    have hjk : j1 ≠ k := by
+      intro e; rw [e, h.rnone k (Nat.le_refl _)] at hi'; cases hi'
+    rw [hMo j1 hjk]; exact h.rne j1 i' hi'
+  · intro j1 hj1; rw [hMr]; exact h.rnone j1 hj1
+  · intro i m r hm hr cat hcat
+    simp only [Array.getElem?_push] at hm
+    split at hm
+    · injection hm with hm; subst hm
+      rw [hnrnd r hr] at hcat; cases hcat
+    · obtain ⟨k0, hk0, e⟩ := h.rfresh i m r hm hr cat hcat
+      exact ⟨k0, by show k0 < nx; omega, e⟩
+
+/-- the group of row `k` is created and appended to the root block, the row id is registered -/
+theorem Rel.close_row {rows : List CRow} {M : Maps} {pd0 : Bool} {k : Nat} {s3 : St} {st1 : P1} {c : CRow}
+    (r3 : Rel rows M pd0 k s3 st1) (hc : rows[k]? = some c) (hnode : isNodeRow c = true)
+    (hpd : pd0 = true ∨ M.el k = true) (hfrk : M.fr k = true → M.el k = true ∧ isNoop c = true) (grp : Grp)
+    (hg1 : isNoop c = false → grp = .row (M.nOf k :: (M.rOf k).toList) c.row.type)
+    (hg2 : isNoop c = true → ∃ ps ro, grp = .noop ps ro ∧ (M.el k = false → ro = some (M.nOf k)))
+    (rowIds : List (Str × Nat)) (ids : List (Str × Nat)) (names : List (Str × Nat))
+    (hids : rowIds = ids.map (fun p => (p.1, gOf rows p.2)))
+    (hlt : ∀ p ∈ ids, p.2 < k + 1 ∧ ∃ c, rows[p.2]? = some c ∧ isNodeRow c = true)
+    (hnames : NamesInv rows M (k + 1) names) :
+    Rel rows M false (k + 1)
+      { s3 with groups := (s3.groups.push grp).setIfInBounds 0
+                  (Grp.block (List.range' 1 (gOf rows k - 1) ++ [s3.groups.size])),
+                rowIds := rowIds, names := names }
+      { st1 with prev := some k, ids := ids } := by
   have hgk : gOf rows (k + 1) = gOf rows k + 1 := by rw [gOf_succ rows k c hc, hnode]; simp
-  -- the reference side
-  rw [pass1Row_node st k (toRRow c) hfacts.kind] at hst
-  have hes : (((toRRow c).edges.zipIdx.filter fun (p : REdge × Nat) => p.2 = 0 || !isTrivial p.1).map (·.1)).map
-      (fun e => (e, Target.row k)) = (dropTrivial c.row.edges).map (fun e => (toREdge e, Target.row k)) := by
-    have := dropTrivial_ref c.row.edges
-    simp only [toRRow]
-    rw [this, List.map_map]; rfl
-  rw [hes] at hst
-  cases hst1 : addEdges st k ((dropTrivial c.row.edges).map (fun e => (toREdge e, Target.row k))) with
-  | error err => rw [hst1] at hst; cases hst
-  | ok st1 =>
-    rw [hst1] at hst
-    simp only [Except.ok.injEq] at hst
-    have hpre1 : st1.out.reverse <+: outF := by rw [← hst] at hpre; exact hpre
-    -- the compiler side
-    unfold step toEvent
-    refine wp_parseRow_new c hfacts s _ (fun _ => ?_)
-    unfold newRow
-    wp_simp [wp_addNode, wp_addGrp]
-    refine wp_mono (rowAction_exact _ s) ?_
-    intro act s1 ⟨⟨k1, hb1⟩, hact1⟩; subst hb1
-    refine wp_mono (rowNode_sim c hf _ act hact1 _ h.args) ?_
-    intro n s2 ⟨⟨k2, hb2⟩, hnrnd, hnsim⟩; subst hb2
-    dsimp only
-    -- the ghost map learns where the node of row `k` lives
-    obtain ⟨M', hM'⟩ : ∃ M' : Maps, M' = { M with nOf := fun x => if x = k then s.nodes.size else M.nOf x } := ⟨_, rfl⟩
-    have hMk : M'.nOf k = s.nodes.size := by rw [hM']; simp
-    have hMo : ∀ x, x ≠ k → M'.nOf x = M.nOf x := by intro x hx; rw [hM']; simp [hx]
-    have hMr : M'.rOf = M.rOf := by rw [hM']
-    have hsrck : ∀ e ∈ st.out, e.src < k := fun e he => (h.srcok e he).1
-    have htgk : ∀ e ∈ st.out, ∀ t, e.tgt = Target.row t → M'.nOf t = M.nOf t := by
-      intro e he t ht
-      rcases h.tgtok e he t ht with h1 | h1
-      · exact hMo t (by omega)
-      · exact absurd h1.1 (by simp)
-    have hmemout : ∀ j, ∀ e ∈ outOf st j, e ∈ st.out := by
-      intro j e he
-      have := (List.mem_filter.mp he).1
-      simpa using this
-    have hvalid : ∀ j c', Valid rows true k j c' → j ≠ k → Valid rows false k j c' := by
-      intro j c' hv hjk
-      rcases hv.1 with h1 | h1
-      · exact ⟨.inl h1, hv.2⟩
-      · exact absurd h1.2 hjk
-    -- the arena with the pending node
-    have r1 : Rel rows M' true k { s with nodes := s.nodes.push n, next := s.next + k1 + k2 } st := by
-      have hrk : M'.rOf k = none := by rw [hMr]; exact h.rnone k (Nat.le_refl _)
-      have hidx : ∀ j0, idxs M' j0 = if j0 = k then [s.nodes.size] else idxs M j0 := by
-        intro j0
-        by_cases hjj : j0 = k
-        · subst hjj; simp [idxs, hMk, hrk]
-        · simp [idxs, hMo j0 hjj, hMr, hjj]
-      refine ⟨h.gsize, h.root, ?_, h.stack, h.ids, h.idok, h.prev, h.srcok, ?_, h.args, ?_, ?_, ?_, ?_, ?_⟩
-      · intro j c' hj hc' hn'
-        rw [hMo j (by omega), hMr]; exact h.grp j c' hj hc' hn'
-      · intro e he t ht
-        rcases h.tgtok e he t ht with h1 | h1
-        · exact .inl h1
-        · exact absurd h1.1 (by simp)
-      · intro j c' hv
-        by_cases hjk : j = k
-        · subst hjk
-          have : c' = c := by have := hv.2.1; rw [hc] at this; injection this with this; exact this.symm
-          subst this
-          refine ⟨n, by rw [hMk]; simp, ?_⟩
-          rw [outOf_nil_of_src st j hsrck, hrk]
-          exact .one (hnsim _ _)
-        · obtain ⟨n', hn', hp'⟩ := h.node j c' (hvalid j c' hv hjk)
-          refine ⟨n', by rw [hMo j hjk]; exact getElem?_push_of_some n hn', ?_⟩
-          rw [hMr]
-          refine (hp'.transfer (NExt.push _ _) ?_).congrM (fun e he t ht => htgk e (hmemout j e he) t ht)
-          intro i hi
-          have := h.idx_lt j c' (hvalid j c' hv hjk) i (by simp only [idxs, List.mem_cons]; exact .inr hi)
-          simp [Array.getElem?_push, Nat.ne_of_lt this]
-      · intro j1 c1 j2 c2 hv1 hv2 x hx1 hx2
-        rw [hidx] at hx1 hx2
-        by_cases h1 : j1 = k
-        · by_cases h2 : j2 = k
-          · rw [h1, h2]
-          · exfalso
-            rw [if_pos h1] at hx1; rw [if_neg h2] at hx2
-            have := h.idx_lt j2 c2 (hvalid j2 c2 hv2 h2) x hx2
-            simp only [List.mem_singleton] at hx1
-            omega
-        · by_cases h2 : j2 = k
-          · exfalso
-            rw [if_neg h1] at hx1; rw [if_pos h2] at hx2
-            have := h.idx_lt j1 c1 (hvalid j1 c1 hv1 h1) x hx1
-            simp only [List.mem_singleton] at hx2
-            omega
-          · rw [if_neg h1] at hx1; rw [if_neg h2] at hx2
-            exact h.disj j1 c1 j2 c2 (hvalid j1 c1 hv1 h1) (hvalid j2 c2 hv2 h2) x hx1 hx2
-      · intro j1 i' hi'
-        rw [hMr] at hi'
-        have hjk : j1 ≠ k := by
-          intro e; rw [e, h.rnone k (Nat.le_refl _)] at hi'; cases hi'
-        rw [hMo j1 hjk]; exact h.rne j1 i' hi'
-      · intro j1 hj1; rw [hMr]; exact h.rnone j1 hj1
-      · intro i m r hm hr cat hcat
-        simp only [Array.getElem?_push] at hm
-        split at hm
-        · injection hm with hm; subst hm
-          rw [hnrnd r hr] at hcat; cases hcat
-        · obtain ⟨k0, hk0, e⟩ := h.rfresh i m r hm hr cat hcat
-          exact ⟨k0, by show k0 < s.next + k1 + k2; omega, e⟩
-    have hdk : DestIs M' ({ s with nodes := s.nodes.push n, next := s.next + k1 + k2 } : St).nodes (.node n.uid)
-        (some (Target.row k)) := ⟨n, by rw [hMk]; simp, rfl⟩
-    refine wp_mono (edges_sim rows outF g M' true k (.node n.uid) (Target.row k) _ _ st st1 r1 hdk
-      (fun t ht => by injection ht with ht; exact .inr ⟨rfl, ht.symm⟩) hst1 hpre1) ?_
-    intro _ s3 ⟨M3, hM3, r3, _⟩
-    have hM3k : M3.nOf k = s.nodes.size := by rw [hM3, hMk]
-    have hM3r : M3.rOf k = none := r3.rnone k (Nat.le_refl _)
-    -- the row group is created and appended to the root block
-    unfold appendGroup
-    wp_simp [wp_setGrp]
-    simp only [r3.stack]
-    have hsz : s3.groups.size = gOf rows k := r3.gsize
-    have hpos := gOf_pos rows k
-    have hroot3 : (s3.groups.push (Grp.row [s.nodes.size] c.row.type))[0]? = some (.block (List.range' 1 (gOf rows k - 1))) := by
-      rw [Array.getElem?_push]
-      have : ¬ 0 = s3.groups.size := by rw [hsz]; omega
-      simp [this, r3.root]
-    rw [hroot3]
-    wp_simp [wp_setGrp]
-    unfold addRowId
-    have hfinal : ∀ (rowIds : List (Str × Nat)) (ids : List (Str × Nat)) (names : List (Str × Nat)),
-        rowIds = ids.map (fun p => (p.1, gOf rows p.2)) →
-        (∀ p ∈ ids, p.2 < k + 1 ∧ ∃ c, rows[p.2]? = some c ∧ isNodeRow c = true) →
-        Rel rows M3 false (k + 1)
-          { s3 with groups := (s3.groups.push (Grp.row [s.nodes.size] c.row.type)).setIfInBounds 0
-                      (Grp.block (List.range' 1 (gOf rows k - 1) ++ [s3.groups.size])),
-                    rowIds := rowIds, names := names }
-          { st1 with prev := some k, ids := ids } := by
-      intro rowIds ids names hids hlt
-      refine ⟨by simp [hsz, hgk], ?_, ?_, r3.stack, hids, hlt, ?_, ?_, ?_, r3.args, ?_, ?_, r3.rne,
-        fun j hj => r3.rnone j (by omega), r3.rfresh⟩
-      · simp only [Array.getElem?_setIfInBounds, Array.size_push]
-        have e1 : gOf rows (k + 1) - 1 = (gOf rows k - 1) + 1 := by omega
-        rw [e1, List.range'_concat]
-        simp [hsz]; omega
-      · intro j c' hj hc' hn'
-        simp only [Array.getElem?_setIfInBounds, Array.getElem?_push]
-        have hgj := gOf_pos rows j
-        have h0 : ¬ 0 = gOf rows j := by omega
-        simp only [h0, if_false]
-        by_cases hjk : j = k
-        · subst hjk
-          rw [hc] at hc'; injection hc' with hc'; subst hc'
-          simp [hsz, hM3k, hM3r]
-        · have hjl : j < k := by omega
-          have := r3.grp j c' hjl hc' hn'
-          have hlt' := gOf_lt rows hjl hc' hn'
-          have : ¬ gOf rows j = s3.groups.size := by omega
-          simp [this, r3.grp j c' hjl hc' hn']
-      · exact ⟨by omega, ⟨c, hc, hnode⟩, hgk.symm⟩
-      · intro e he; have := r3.srcok e he; exact ⟨by omega, this.2⟩
-      · intro e he t ht
-        rcases r3.tgtok e he t ht with h1 | h1
-        · exact .inl (by omega)
-        · exact .inl (by omega)
-      · intro j c' hv
-        have : Valid rows true k j c' := by
-          obtain ⟨h1, h2, h3⟩ := hv
-          rcases h1 with h1 | h1
-          · rcases Nat.lt_succ_iff_lt_or_eq.mp h1 with h4 | h4
-            · exact ⟨.inl h4, h2, h3⟩
-            · exact ⟨.inr ⟨rfl, h4⟩, h2, h3⟩
-          · exact absurd h1.1 (by simp)
-        exact r3.node j c' this
-      · intro j c1 j' c2 hv1 hv2
-        have conv : ∀ j c', Valid rows false (k + 1) j c' → Valid rows true k j c' := by
-          intro j c' hv
-          obtain ⟨h1, h2, h3⟩ := hv
-          rcases h1 with h1 | h1
-          · rcases Nat.lt_succ_iff_lt_or_eq.mp h1 with h4 | h4
-            · exact ⟨.inl h4, h2, h3⟩
-            · exact ⟨.inr ⟨rfl, h4⟩, h2, h3⟩
-          · exact absurd h1.1 (by simp)
-        exact r3.disj j c1 j' c2 (conv _ _ hv1) (conv _ _ hv2)
-    by_cases hrid : c.row.rowId = []
-    · simp only [hrid, List.isEmpty_nil, if_true]
-      wp_simp
-      refine ⟨M3, ?_⟩
-      have := hfinal s3.rowIds st1.ids (([], s.nodes.size) :: s3.names) r3.ids
-        (fun p hp => by have := r3.idok p hp; exact ⟨by omega, this.2⟩)
-      rw [← hst]
-      simpa [toRRow, hrid, r3.stack] using this
-    · simp only [List.isEmpty_iff, hrid, if_false]
-      wp_simp
-      refine ⟨M3, ?_⟩
-      have := hfinal ((c.row.rowId, s3.groups.size) :: s3.rowIds) ((c.row.rowId, k) :: st1.ids)
-        (([], s.nodes.size) :: s3.names) (by simp [r3.ids, hsz])
-        (fun p hp => by
-          simp only [List.mem_cons] at hp
-          rcases hp with rfl | hp
-          · exact ⟨by simp, c, hc, hnode⟩
-          · have := r3.idok p hp; exact ⟨by omega, this.2⟩)
-      rw [← hst]
-      simpa [toRRow, List.isEmpty_iff, hrid, r3.stack] using this
-
-/-! ### rows that produce no node -/
-
-theorem dropTrivial_map (es : List Compile.Edge) :
-    ((es.map toREdge).zipIdx.filter fun (p : REdge × Nat) => p.2 = 0 || !isTrivial p.1).map (·.1) =
-      (dropTrivial es).map toREdge := dropTrivial_ref es
-
-theorem kindOf_hard : kindOf "hard_exit".toList = .hardExit := by decide
-theorem kindOf_loose : kindOf "loose_exit".toList = .looseExit := by decide
-theorem kindOf_goto : kindOf "go_to".toList = .goTo := by decide
-
-/-- a `hard_exit` / `loose_exit` row -/
-theorem exit_row_sim (rows : List CRow) (outF : List OutEdge) (g : Good rows outF) (M : Maps) (k : Nat) (c : CRow)
-    (hc : rows[k]? = some c) (hf : exitRow c = true) (s : St) (st st' : P1) (h : Rel rows M false k s st)
-    (hst : pass1Row st k (toRRow c) = .ok st') (hpre : st'.out.reverse <+: outF) :
-    wp (step (toEvent c)) s (fun _ s' => ∃ M', Rel rows M' false (k + 1) s' st') := by
-  simp only [exitRow, Bool.and_eq_true, Bool.or_eq_true, decide_eq_true_eq] at hf
-  obtain ⟨ht, _⟩ := hf
-  have hkind : kindOf c.row.type = .hardExit ∨ kindOf c.row.type = .looseExit := by
-    rcases ht with h1 | h1 <;> rw [h1]
-    · exact .inl kindOf_hard
-    · exact .inr kindOf_loose
-  have hnn : isNodeRow c = false := by
-    unfold isNodeRow; rcases hkind with h1 | h1 <;> rw [h1] <;> rfl
-  -- the reference side
-  have hst2 : addEdges st k ((dropTrivial c.row.edges).map (fun e => (toREdge e, Target.exit))) = .ok st' := by
-    unfold pass1Row at hst
-    have hk' : (toRRow c).kind = kindOf c.row.type := rfl
-    have hes := dropTrivial_map c.row.edges
-    rcases hkind with h1 | h1 <;>
-      (simp only [hk', h1] at hst
-       have he : (toRRow c).edges = c.row.edges.map toREdge := rfl
-       rw [he, hes, List.map_map] at hst
-       exact hst)
-  -- the compiler side
-  unfold step toEvent parseRow
-  simp only
-  rw [if_pos ht]
-  have hd : DestIs M s.nodes (if c.row.type = "hard_exit".toList then Dest.hard else Dest.none) (some Target.exit) := by
-    split
-    · exact .inl rfl
-    · exact .inr rfl
-  refine wp_mono (edges_sim rows outF g M false k _ Target.exit _ s st st' h hd (fun t ht => by cases ht) hst2 hpre) ?_
-  intro _ s' ⟨M', _, r, _⟩
-  exact ⟨M', r.skip hc hnn⟩
+  have hsz : s3.groups.size = gOf rows k := r3.gsize
+  have hpos := gOf_pos rows k
+  have conv : ∀ j c', Valid rows M false (k + 1) j c' → Valid rows M pd0 k j c' := by
+    intro j c' hv
+    obtain ⟨h1, h2, h3⟩ := hv
+    rcases h1 with h1 | h1
+    · rcases Nat.lt_succ_iff_lt_or_eq.mp h1 with h4 | h4
+      · exact ⟨.inl h4, h2, h3⟩
+      · rcases hpd with hpd | hpd
+        · exact ⟨.inr ⟨hpd, h4⟩, h2, h3⟩
+        · rw [h4, hpd] at h3; cases h3.2
+    · exact absurd h1.1 (by simp)
+  have hgetk : ∀ j, 1 ≤ j → ((s3.groups.push grp).setIfInBounds 0
+      (Grp.block (List.range' 1 (gOf rows k - 1) ++ [s3.groups.size])))[j]? =
+        if j = s3.groups.size then some grp else s3.groups[j]? := by
+    intro j hj
+    simp only [Array.getElem?_setIfInBounds, Array.getElem?_push]
+    have h0 : ¬ 0 = j := by omega
+    simp only [h0, if_false]
+  refine ⟨by simp [hsz, hgk], ?_, ?_, ?_, r3.elno, ?_, r3.tgtfr, r3.stack, hids, hlt, ?_, ?_, ?_, r3.args, ?_, ?_, r3.rne,
+    fun j hj => r3.rnone j (by omega), r3.rnoop, r3.rfresh, hnames⟩
+  · simp only [Array.getElem?_setIfInBounds, Array.size_push]
+    have e1 : gOf rows (k + 1) - 1 = (gOf rows k - 1) + 1 := by omega
+    rw [e1, List.range'_concat]
+    simp [hsz]; omega
+  · intro j c' hj hc' hn' hnn'
+    rw [hgetk _ (gOf_pos rows j)]
+    by_cases hjk : j = k
+    · subst hjk
+      rw [hc] at hc'; injection hc' with hc'; subst hc'
+      rw [if_pos hsz.symm, hg1 hnn']
+    · have hjl : j < k := by omega
+      have hlt' := gOf_lt rows hjl hc' hn'
+      rw [if_neg (by omega)]
+      exact r3.grp j c' hjl hc' hn' hnn'
+  · intro j c' hj hc' hnn'
+    rw [hgetk _ (gOf_pos rows j)]
+    by_cases hjk : j = k
+    · subst hjk
+      rw [hc] at hc'; injection hc' with hc'; subst hc'
+      rw [if_pos hsz.symm]
+      obtain ⟨ps, ro, e1, e2⟩ := hg2 hnn'
+      exact ⟨ps, ro, by rw [e1], e2⟩
+    · have hjl : j < k := by omega
+      have hlt' := gOf_lt rows hjl hc' (isNodeRow_of_noop hnn')
+      rw [if_neg (by omega)]
+      exact r3.grpN j c' hjl hc' hnn'
+  · intro j hj
+    by_cases hjk : j = k
+    · subst hjk; exact ⟨(hfrk hj).1, by omega, c, hc, (hfrk hj).2⟩
+    · have := r3.frel j hj; exact ⟨this.1, by omega, this.2.2⟩
+  · exact ⟨by omega, ⟨c, hc, hnode⟩, hgk.symm⟩
+  · intro e he; have := r3.srcok e he; exact ⟨by omega, this.2⟩
+  · intro e he t ht
+    rcases r3.tgtok e he t ht with h1 | h1
+    · exact .inl (by omega)
+    · exact .inl (by omega)
+  · intro j c' hv
+    rw [postUpTo_succ rows k j c hc (unmerged_of_node hnode)]
+    exact r3.node j c' (conv _ _ hv)
+  · intro j c1 j' c2 hv1 hv2
+    exact r3.disj j c1 j' c2 (conv _ _ hv1) (conv _ _ hv2)
 
 theorem wp_lookupRow (id : Str) (s : St) (Q : Option Nat → St → Prop) :
     wp (lookupRow id) s Q ↔ Q ((s.rowIds.find? (·.1 = id)).map (·.2)) s := by
   unfold lookupRow; wp_simp
-
-/-- the edges of a `go_to` row, each with its destination -/
-theorem goto_edges_sim (rows : List CRow) (outF : List OutEdge) (g : Good rows outF) (k : Nat) :
-    ∀ (es : List Compile.Edge) (M : Maps) (ds : List Str) (tgts : List Target) (s : St) (st st' : P1),
-      Rel rows M false k s st → ds.length = es.length →
-      ds.mapM (fun d => match lookupId st.ids d with
-        | some t => (pure (Target.row t) : Except WfErr Target)
-        | none => throw (WfErr.unknownDest k d)) = .ok tgts →
-      addEdges st k ((es.map toREdge).zip tgts) = .ok st' →
-      st'.out.reverse <+: outF →
-      wp ((es.zip ds).forM gotoEdge) s (fun _ s' => ∃ M', Rel rows M' false k s' st') := by
-  intro es
-  induction es with
-  | nil =>
-    intro M ds tgts s st st' h _ _ hst _
-    simp only [List.map_nil, List.zip_nil_left] at hst ⊢
-    rw [addEdges_nil] at hst
-    injection hst with hst; subst hst
-    rw [wp_forM_nil]; exact ⟨M, h⟩
-  | cons e es ih =>
-    intro M ds tgts s st st' h hlen hm hst hpre
-    cases ds with
-    | nil => simp at hlen
-    | cons dd ds =>
-      simp only [List.mapM_cons, bind, Except.bind] at hm
-      cases hl : lookupId st.ids dd with
-      | none => rw [hl] at hm; cases hm
-      | some t =>
-        rw [hl] at hm
-        simp only [pure, Except.pure] at hm
-        cases hm2 : ds.mapM (fun d => match lookupId st.ids d with
-            | some t => (Except.ok (Target.row t) : Except WfErr Target)
-            | none => throw (WfErr.unknownDest k d)) with
-        | error err => rw [hm2] at hm; cases hm
-        | ok tg2 =>
-          rw [hm2] at hm
-          simp only [Except.ok.injEq] at hm
-          subst hm
-          simp only [List.map_cons, List.zip_cons_cons] at hst ⊢
-          rw [addEdges_cons] at hst
-          rw [wp_forM_cons]
-          cases h1 : edgeStep st k (toREdge e) (Target.row t) with
-          | error err => rw [h1] at hst; cases hst
-          | ok st1 =>
-            rw [h1] at hst
-            simp only at hst
-            have hpre1 : st1.out.reverse <+: outF := (addEdges_prefix _ _ _ _ hst).trans hpre
-            -- the destination row: its group, its node
-            obtain ⟨p, hp, hpt⟩ := lookupId_mem hl
-            have hidok := h.idok p hp
-            rw [hpt] at hidok
-            obtain ⟨htk, ct, hct, hnt⟩ := hidok
-            have hgrp := h.grp t ct htk hct hnt
-            obtain ⟨nt, hnt', _⟩ := h.node t ct ⟨.inl htk, hct, hnt⟩
-            have step1 : wp (gotoEdge (e, dd)) s (fun _ s1 => ∃ M1, Rel rows M1 false k s1 st1) := by
-              unfold gotoEdge
-              wp_simp [wp_lookupRow]
-              rw [h.ids, lookup_ids, hl]
-              simp only [Option.map_some]
-              wp_simp [wp_fuelOf]
-              have hfuel : 2 * s.groups.size + 8 = (2 * s.groups.size + 7) + 1 := by omega
-              rw [hfuel]
-              unfold entryNode
-              wp_simp [wp_getGrp]
-              intro grp hg
-              rw [hgrp] at hg; injection hg with hg; subst hg
-              simp only [List.head?_cons]
-              wp_simp [wp_getNode]
-              intro n' hn'
-              rw [hnt'] at hn'; injection hn' with hn'; subst hn'
-              exact wp_mono (edge_sim rows outF g M false k (.node nt.uid) (Target.row t) e s st st1 h
-                ⟨nt, hnt', rfl⟩ (fun t' ht' => by injection ht' with ht'; exact .inl (ht' ▸ htk)) h1 hpre1)
-                (fun _ _ ⟨M1, _, r1, _⟩ => ⟨M1, r1⟩)
-            refine wp_mono step1 ?_
-            intro _ s1 ⟨M1, r1⟩
-            have hids : st1.ids = st.ids := (edgeStep_prefix h1).2.1
-            exact ih M1 ds tg2 s1 st1 st' r1 (by simpa using hlen) (by rw [hids]; exact hm2) hst hpre
-
-/-- a `go_to` row -/
-theorem goto_row_sim (rows : List CRow) (outF : List OutEdge) (g : Good rows outF) (M : Maps) (k : Nat) (c : CRow)
-    (hc : rows[k]? = some c) (hf : gotoRow c = true) (s : St) (st st' : P1) (h : Rel rows M false k s st)
-    (hst : pass1Row st k (toRRow c) = .ok st') (hpre : st'.out.reverse <+: outF) :
-    wp (step (toEvent c)) s (fun _ s' => ∃ M', Rel rows M' false (k + 1) s' st') := by
-  simp only [gotoRow, Bool.and_eq_true, decide_eq_true_eq] at hf
-  obtain ⟨ht, _⟩ := hf
-  have hkind : kindOf c.row.type = .goTo := by rw [ht]; exact kindOf_goto
-  have hnn : isNodeRow c = false := by unfold isNodeRow; rw [hkind]; rfl
-  have hlenE : ((dropTrivial c.row.edges).map toREdge).length = (dropTrivial c.row.edges).length := by simp
-  -- the reference side
-  unfold pass1Row at hst
-  have hk' : (toRRow c).kind = kindOf c.row.type := rfl
-  have he : (toRRow c).edges = c.row.edges.map toREdge := rfl
-  have hd' : (toRRow c).dests = c.row.dests := rfl
-  simp only [hk', hkind, he, dropTrivial_map, hd', hlenE, bind, Except.bind, pure, Except.pure] at hst
-  -- the compiler side
-  unfold step toEvent parseRow
-  simp only
-  have e10 : ¬ (c.row.type = "hard_exit".toList ∨ c.row.type = "loose_exit".toList) := by
-    rw [ht]; rintro (hh | hh) <;> exact absurd hh (by decide)
-  rw [if_neg e10, if_pos ht]
-  unfold parseGoto
-  simp only
-  generalize hds : (if c.row.dests.length = 1 then List.replicate (dropTrivial c.row.edges).length (c.row.dests.headD [])
-    else c.row.dests) = ds at hst ⊢
-  by_cases hlen : ds.length = (dropTrivial c.row.edges).length
-  · rw [if_neg (by simpa using hlen)] at hst
-    simp only [hlen, ne_eq, not_true_eq_false, if_false]
-    split at hst
-    · cases hst
-    · rename_i tgts hm
-      refine wp_mono (goto_edges_sim rows outF g k _ M ds tgts s st st' h hlen hm hst hpre) ?_
-      intro _ s' ⟨M', r⟩
-      exact ⟨M', r.skip hc hnn⟩
-  · simp only [hlen, ne_eq, not_false_eq_true, if_true]
-    wp_simp
-
-/-- a row of the fragment: the compiler machine and pass 1 stay related -/
-theorem row_sim (rows : List CRow) (outF : List OutEdge) (g : Good rows outF) (M : Maps) (k : Nat) (c : CRow)
-    (hc : rows[k]? = some c) (hf : rowOk c = true) (s : St) (st st' : P1) (h : Rel rows M false k s st)
-    (hst : pass1Row st k (toRRow c) = .ok st') (hpre : st'.out.reverse <+: outF) :
-    wp (step (toEvent c)) s (fun _ s' => ∃ M', Rel rows M' false (k + 1) s' st') := by
-  simp only [rowOk, Bool.or_eq_true] at hf
-  rcases hf with (hf | hf) | hf
-  · exact node_row_sim rows outF g M k c hc hf s st st' h hst hpre
-  · exact exit_row_sim rows outF g M k c hc hf s st st' h hst hpre
-  · exact goto_row_sim rows outF g M k c hc hf s st st' h hst hpre
 
 end Rpft.CoreSheet
